@@ -169,6 +169,20 @@ def apply(x, tok):
     multi = isinstance(s, tmo.MultiStream)
     op, _, arg = tok.partition(':')
     lab = f'step{k} {tok}'
+    if op in READS_OTHER:               # frame: these take the other stream as a source only
+        o = x.other()
+        pre_o = state_of(o)
+        ok = _apply(x, tok, op, arg, lab, s, multi)
+        w.ensure(f'{lab}: source stream unchanged', same_state(w, pre_o, state_of(o)))
+        return ok
+    return _apply(x, tok, op, arg, lab, s, multi)
+
+
+READS_OTHER = ('mix', 'mixHo', 'mixo', 'sep', 'copylike', 'copyflow', 'copyTP', 'copyphase')
+
+
+def _apply(x, tok, op, arg, lab, s, multi):
+    w = x.w
     if op == 'r':                       # read on the stream itself
         read(x, s, arg, lab, frame=_frame(x, s))
     elif op == 'pr':                    # read through the proxy
@@ -318,19 +332,18 @@ def final_reads(x, props, label='final'):
             read(x, x.o, p, f'{label} other')
 
 
-def _canary(x, prop='H', hot=False):
-    """Deliberately wrong: the value read after the history equals the value at another temperature."""
+def _canary(x, prop='H'):
+    """Deliberately wrong clause (vacuity guard): the value read at the end of the history is off by one."""
     w = x.w; s = x.s
     val = getattr(s, prop)
-    ref = getattr(fresh_of(s), prop)
-    if ref is None:      # empty stream: per-mole properties are undefined
-        w.canary(f'canary: {prop} = value on a fresh stream + 1', w.eq(val, 1.))
+    if val is None:      # empty stream: per-mole properties are undefined
+        w.canary(f'canary: {prop} is off by one', w.eq(val, 1.))
+    elif isinstance(s, tmo.MultiStream):
+        # same wrong clause written on one term: with several phases the two sides of `read = fresh + 1` are large
+        # nonlinear terms and the *refutation* (a model search) timed out now and then on a loaded machine
+        w.canary(f'canary: {prop} is off by one', w.eq(val, val + 1.))
     else:
-        w.canary(f'canary: {prop} = value on a fresh stream + 1', w.eq(val, ref + 1.))
-    if hot:
-        f = fresh_of(s)
-        f.T = s.T + 1.
-        w.canary(f'canary: {prop} equals the value of a stream 1 K hotter', w.eq(val, getattr(f, prop)))
+        w.canary(f'canary: {prop} is off by one', w.eq(val, getattr(fresh_of(s), prop) + 1.))
 
 
 # --------------------------------------------------------------------------- (1) _get_property from every reachable memo state
@@ -344,7 +357,7 @@ MOVES = {          # how the state s1 differs from the primed state s0
 
 def getprop_configs(tier):
     out = []
-    kinds = ['l', 'gl'] if tier == 'quick' else ['l', 'g', 'gl', 'lL', 'gls']
+    kinds = ['l', 'gl'] if tier == 'quick' else ['l', 'gl', 'lL', 'gls']
     primes = [(), ('H',), ('sigma',), ('V', 'mu')] if tier == 'quick' else \
         [(), ('H',), ('S',), ('Cn',), ('sigma',), ('Hvap',), ('V', 'mu'), ('H', 'sigma'), ('sigma', 'H'), ('kappa', 'epsilon', 'C')]
     for kind in kinds:
@@ -353,13 +366,21 @@ def getprop_configs(tier):
         for prime in primes:
             for mv in moves:
                 if not prime and mv != 'same': continue
-                if tier == 'thorough' or (mv in ('same', 'all', 'T', 'comp') and len(prime) <= 1):
+                if (tier == 'thorough' or mv in ('same', 'all', 'T', 'comp')) and len(prime) <= 1:
                     firsts = PRIMARY
                 else:
                     firsts = ('H', 'sigma', 'V')
                 for first in firsts:
                     out.append({'name': f'kind={kind};prime={"+".join(prime) or "none"};move={mv};read={first}',
                                 'kind': kind, 'prime': list(prime), 'move': mv, 'first': first, 'derived': False})
+    # other presence patterns of the composition dict (an entry appears / may be absent)
+    for present in ['pos+zero'] + (['pos+maybe'] if tier == 'thorough' else []):
+        for kind in (['l'] if tier == 'quick' else ['l', 'gl']):
+            for prime in [('H',), ('sigma',)]:
+                for mv in ['same', 'comp', 'all', 'total']:
+                    for first in (('H', 'sigma', 'V') if tier == 'quick' else PRIMARY):
+                        out.append({'name': f'kind={kind};present={present};prime={"+".join(prime)};move={mv};read={first}', 'kind': kind,
+                                    'present': present, 'prime': list(prime), 'move': mv, 'first': first, 'derived': False})
     # the quantities derived from the memoised ones (stateless functions of them and of MW): fewer structures
     for kind in (['l'] if tier == 'quick' else ['l', 'g', 'gl']):
         for prime in [(), ('V',), ('Cn', 'mu', 'kappa')]:
@@ -371,14 +392,14 @@ def getprop_configs(tier):
     return out
 
 
-@group('C14/get_property', configs=getprop_configs, loop_free=True,
+@group('C14/get_property', configs=getprop_configs,
        functions=['thermosteam._stream:Stream._get_property', 'thermosteam._multi_stream:MultiStream._get_property',
                   'thermosteam._stream:Stream.reset_cache', 'thermosteam._multi_stream:MultiStream.reset_cache'] +
                  [f'thermosteam._stream:Stream.{p}' for p in ALLP] +
                  [f'thermosteam._multi_stream:MultiStream.{p}' for p in ('H', 'h', 'S')],
        assumptions=['A-models'])
 def get_property(w, cfg):
-    x = X(w, cfg['kind'])
+    x = X(w, cfg['kind'], n_present=cfg.get('present', 'pos+pos'))
     for p in cfg['prime']:
         read(x, x.s, p, f'prime {p}')
     run_history(x, MOVES[cfg['move']])
@@ -435,7 +456,7 @@ def mutator_configs(tier):
             if tag not in where: continue
             for prime in primes:
                 for after in afters:
-                    if tier == 'quick' and after != 'none' and prime != ('H',): continue
+                    if after != 'none' and prime != ('H',) and (tier == 'quick' or after != 'T'): continue
                     out.append({'name': f'kind={kind};prime={"+".join(prime)};mutator={mname};after={after}',
                                 'kind': kind, 'pre': pre, 'prime': list(prime), 'mut': mut,
                                 'after': {'none': [], 'T': ['T'], 'fl': ['fl'], 'TP+fl': ['T', 'P', 'fl']}[after]})
@@ -530,11 +551,13 @@ def shared_configs(tier):
                 else:
                     if share in ('link_with', 'flow_proxy'): continue
                     seqs = _shared_sequences(share, 4, props, own_muts=('T',), other_muts=muts[:1])
-                    seqs = [q for q in seqs if len(q) <= 2 or _aba(q)]
+                    seqs = [q for q in seqs if len(q) <= (3 if share == 'phase view' else 2) or _aba(q)]
             else:
                 props = ['H', 'sigma'] if kind == 'l' else ['H']
-                seqs = _shared_sequences(share, 4, props)
-                seqs += [q for q in _shared_sequences(share, 5, ['H']) if len(q) == 5]
+                seqs = _shared_sequences(share, 3, props)
+                seqs += [q for q in _shared_sequences(share, 4, ['H']) if len(q) == 4]
+                if kind == 'l':
+                    seqs += [q for q in _shared_sequences(share, 5, ['H'], own_muts=('T',), other_muts=muts[:1]) if len(q) == 5]
             for when in (['before', 'after-first-read'] if ctor else ['before']):
                 for q in seqs:
                     if when != 'before' and (not q[0].startswith('r:') or (tier == 'quick' and len(q) < 3)): continue
@@ -609,17 +632,18 @@ def history_configs(tier):
 
     depth = 3 if tier == 'quick' else 4
     for kind in ['l', 'gl']:
-        alpha = ALPHABET[kind, tier]
         for d in range(2, depth + 1):
+            # thorough: the large alphabet to depth 3, the quick alphabet to depth 4
+            alpha = ALPHABET[kind, 'quick' if d == 4 else tier]
             for seq in itertools.product(alpha, repeat=d):
                 if _ok_history(seq):
                     add(kind, seq, 'H')
-                    if tier == 'thorough' or 'r:sigma' in seq:
+                    if 'r:sigma' in seq:
                         add(kind, seq, 'sigma')
     deep = {'quick': 4, 'thorough': 6}[tier]
     for name, alpha in DEEP.items():
-        for d in range(depth + 1, deep + 1):
-            if tier == 'thorough' and d == 6 and name not in ('proxy',): continue
+        for d in range(4, deep + 1):
+            if d == 6 and name == 'phase': continue
             for seq in itertools.product(alpha, repeat=d):
                 if _ok_history(seq):
                     add('l', seq, 'H')
